@@ -330,9 +330,56 @@ static int replay(const std::string &path)
 	return res.verdict == RSV_FAIL ? 1 : 0;
 }
 
+#include <dirent.h>
+static int corpus_stats(const std::string &dir)
+{
+	DIR *dp = opendir(dir.c_str());
+	if(!dp)
+		return 3;
+	double t0 = now_s();
+	struct dirent *de;
+	while((de = readdir(dp)) != nullptr) {
+		if(de->d_name[0] == '.')
+			continue;
+		std::string p = dir + "/" + de->d_name;
+		FILE *f = fopen(p.c_str(), "rb");
+		if(!f)
+			continue;
+		std::vector<uint8_t> tape;
+		uint8_t buf[4096];
+		size_t n;
+		while((n = fread(buf, 1, sizeof buf, f)) > 0)
+			tape.insert(tape.end(), buf, buf + n);
+		fclose(f);
+		rsv_result res;
+		bool crashed, timedout;
+		run_case(tape, res, crashed, timedout);
+		S.evaluations++;
+		S.tape_bytes += tape.size();
+		if(res.verdict == RSV_PASS) {
+			S.pass++;
+			for(int i = 0; i < RSV_NCLS; i++) {
+				S.cls_sum[i] += res.cls[i];
+				S.cls_cases[i] += res.cls[i] != 0;
+			}
+			if(res.nontrivial) {
+				S.nontrivial++;
+				if(S.fps.insert(res.fingerprint).second && S.samples.size() < 5 && res.sample[0])
+					S.samples.push_back(res.sample);
+			}
+		} else if(res.verdict == RSV_FAIL)
+			S.fail++;
+		else
+			S.discard++;
+	}
+	closedir(dp);
+	dump_stats(now_s() - t0, nullptr, "");
+	return 0;
+}
+
 int main(int argc, char **argv)
 {
-	std::string replay_path;
+	std::string replay_path, corpus_dir;
 	for(int i = 1; i < argc; i++) {
 		std::string a = argv[i];
 		auto next = [&]() -> std::string { return i + 1 < argc ? argv[++i] : ""; };
@@ -344,6 +391,8 @@ int main(int argc, char **argv)
 			g_faildir = next();
 		else if(a == "--replay")
 			replay_path = next();
+		else if(a == "--corpus")
+			corpus_dir = next();
 		else if(a == "--tape-len")
 			g_tape_len = atoi(next().c_str());
 		else if(a == "--time-budget")
@@ -366,6 +415,8 @@ int main(int argc, char **argv)
 		rsv_setup(g_prop.c_str());
 	if(!replay_path.empty())
 		return replay(replay_path);
+	if(!corpus_dir.empty())
+		return corpus_stats(corpus_dir);
 	if(!g_tape_len)
 		g_tape_len = rsv_default_tape_len;
 
